@@ -259,6 +259,27 @@ def run(ctx):
         if o["rule"] == "R16.7" and "refusal-built-only-in-admission" in o["key"]:
             ctx._add(o["status"], "R06.8", o["key"], o["desc"] + " [the decision table of R06.1 is the only place a put is refused for weight or space]", o["where"], o["detail"])
 
+    # ---- R06.10 the estimate admission compares is the sketch's estimate of *that* hash: the estimator's forwarding chain
+    # passes its hash argument on unchanged down to a function of the sketch type, and that hash is the configured hash of the key
+    if est_callee is not None:
+        chain_ok, cur = True, None
+        for en in sorted(evict_fns):
+            fe = inline.expand(F, F.fn(en), lambda n_: M.keep_in_expansion(n_) or n_ in pop_fns or n_ in dec_fns)
+            for b, t in fe.calls():
+                if t.get("rpath") in F.fns and ultimate_callee(F, t["rpath"]) == est_callee and t["rpath"] != est_callee:
+                    cur = t["rpath"]
+        # walk from the admission-side estimate function down: every hop forwards the hash parameter itself
+        start = [n_ for n_ in F.fns if ultimate_callee(F, n_) == est_callee and n_ != est_callee]
+        for n_ in start + [est_callee]:
+            g_ = F.fns[n_]
+            r_ = g_.origin_local(0)
+            if n_ != est_callee:
+                chain_ok = chain_ok and r_[0] == "call" and r_[2] and r_[2][-1][0] == "param"
+        sk_ty = (F.fns[est_callee].rec.get("self_ty") or "") if est_callee in F.fns else ""
+        ctx.check(chain_ok and ("TinyLFU" in sk_ty or "FrequencyCounter" in sk_ty), "R06.10", "estimator-is-the-sketch-estimate",
+                  "the estimator admission uses ends, through forwarding functions that pass the hash on unchanged, in an estimate function of the sketch", detail="%s (self %s)" % (est_callee, sk_ty))
+    import c10 as c10__
+    c10__.configured_hash_rule(ctx, "R06.10")
     # ---- R06.9 (= C03 R03.7) "fits in the free space" is judged on the space that is really free
     import c03
     c03.retire_before_admission(ctx, "R06.9")
